@@ -428,6 +428,43 @@ func scenarioC10(x *runner.X) {
 		} else {
 			x.Probe("c10.foreign-car-rejected-at-load")
 		}
+		// 4. the same with the cache the epochs of a server share: the genuine other epoch is loaded
+		// next to the epoch with the foreign CAR and read first, so the shared cache is warm with
+		// sections that lie at the same offsets (the two worlds have the same layout)
+		srvLoad := newServerLoader()
+		if ep2, err := srvLoad(s2.write(filepath.Join(x.TempDir(), "genuine2.yml"))); err == nil {
+			for _, o := range w2.w.Objects {
+				data, err := ep2.GetNodeByCid(context.Background(), o.Cid)
+				if err != nil || !bytes.Equal(data, o.Data) {
+					x.Failf("oracle", "a genuine epoch does not return an object of its CAR", "%s %s: %v", world.KindName(o.Kind), o.Cid, err)
+					break
+				}
+			}
+			x.Fault("car-swap-shared-cache")
+			if ep1, err := srvLoad(set.write(filepath.Join(x.TempDir(), "foreigncar.yml"))); err == nil {
+			shared:
+				for round := 0; round < 2; round++ {
+					for _, o := range w1.w.Objects {
+						data, err := ep1.GetNodeByCid(context.Background(), o.Cid)
+						if err == nil && !bytes.Equal(data, o.Data) {
+							if x.Failf("oracle", "with a foreign CAR a CID-addressed fetch returns another object's bytes", "next to a loaded epoch sharing the cache, round %d: %s %s: %d bytes", round, world.KindName(o.Kind), o.Cid, len(data)) {
+								break shared
+							}
+						}
+					}
+				}
+				ep1.Close()
+			}
+			// and the other way round: the genuine epoch after the broken one has been read
+			for _, o := range w2.w.Objects {
+				data, err := ep2.GetNodeByCid(context.Background(), o.Cid)
+				if err != nil || !bytes.Equal(data, o.Data) {
+					x.Failf("oracle", "a genuine epoch does not return an object of its CAR", "after an epoch with a foreign CAR was read through the shared cache: %s %s: %v", world.KindName(o.Kind), o.Cid, err)
+					break
+				}
+			}
+			ep2.Close()
+		}
 	})
 	x.SetNontrivial(true)
 }
